@@ -192,7 +192,9 @@ func vfC06Case(rt *rapid.T, c *ev.Collector) {
 				rt.Fatalf("VIOL[c06-overlong-response-accepted]: client accepted a response whose mark ends beyond %d bytes (padding %d)", refobfs4.MaxHandshake, spad)
 			}
 			cls = append(cls, "server-pad-too-long")
-			c.Case(ev.Hash("toolong", spad, rk), true, cls, func() any { return map[string]any{"arrangement": "real client / ref server", "server_pad": spad, "outcome": "rejected"} })
+			c.Case(ev.Hash("toolong", spad, rk), true, cls, func() any {
+				return map[string]any{"arrangement": "real client / ref server", "server_pad": spad, "outcome": "rejected"}
+			})
 			return
 		}
 		if !cl.SetupDone() || cl.SetupErr() != nil {
@@ -282,7 +284,9 @@ func vfC06Case(rt *rapid.T, c *ev.Collector) {
 				rt.Fatalf("VIOL[c06-out-of-range-pad-accepted]: server accepted a client handshake with padding %d (allowed %d..%d)", cpad, refobfs4.ClientMinPad, refobfs4.ClientMaxPad)
 			}
 			cls = append(cls, "client-pad-out-of-range")
-			c.Case(ev.Hash("oor", cpad, rk), true, cls, func() any { return map[string]any{"arrangement": "ref client / real server", "client_pad": cpad, "outcome": "not accepted"} })
+			c.Case(ev.Hash("oor", cpad, rk), true, cls, func() any {
+				return map[string]any{"arrangement": "ref client / real server", "client_pad": cpad, "outcome": "not accepted"}
+			})
 			return
 		}
 		if !sv.SetupDone() || sv.SetupErr() != nil {
